@@ -483,11 +483,11 @@ macro_rules! prim_occ {
 }
 // assume: last_slot < u32::MAX - 4 (slot counter wrap: c43_t_prim_slot_wrap)
 // bound: next_occupied with a symbolic slot counter (last_slot any) but CONCRETE offsets (state and file content), so that each entry's Occupied/Empty status is concrete: first entry occupied / one empty entry then an occupied one; unwind 9
-prim_occ!(c43_t_prim_occ_first, 0, 56, 0, [4], |r, skipped| {
+prim_occ!(c43_x_prim_occ_first, 0, 56, 0, [4], |r, skipped| {
     assert!(matches!(r, Some(Ok(primary::Entry::Occupied(_, 0)))) && skipped == 0, "first slot occupied: returned at once");
     kani::cover!(r.is_some(), "occupied");
 });
-prim_occ!(c43_t_prim_occ_then_occupied, 0, 0, 1, [4, 4], |r, skipped| {
+prim_occ!(c43_x_prim_occ_then_occupied, 0, 0, 1, [4, 4], |r, skipped| {
     assert!(matches!(r, Some(Ok(primary::Entry::Occupied(_, 0)))) && skipped == 1, "one empty slot skipped, then offsets 0 -> 0x01010101 is occupied");
     kani::cover!(r.is_some(), "occupied after an empty slot");
 });
@@ -621,7 +621,7 @@ sec_next!(c43_t_sec_next_seek_err, 0x1000, 0x1038, Cur::Occ, (Slot::Non, Slot::N
     assert!(matches!(r, Some(Err(secondary::Error::CannotReadSecondaryIndex(_)))), "failing seek reported");
     kani::cover!(r.is_some(), "error");
 });
-sec_next!(c43_t_sec_next_then_prim, 0x1000, 0x1038, Cur::Occ, (Slot::Val(0x1038), Slot::Val(0x1070)), [56, 4], false, false, |r, has| {
+sec_next!(c43_x_sec_next_then_prim, 0x1000, 0x1038, Cur::Occ, (Slot::Val(0x1038), Slot::Val(0x1070)), [56, 4], false, false, |r, has| {
     assert!(matches!(r, Some(Ok(_))) && has, "entry read and the next occupied primary slot loaded");
     kani::cover!(has, "next occupied primary slot loaded");
 });
